@@ -164,6 +164,7 @@ func c20Run(u *Unit) {
 			c.ResetupCrashedHosts = u.Idx%3 == 0
 			c.ReplicationRepairAggressiveMode = u.Idx%2 == 0
 			c.ExcludeUsers = []string{"admin", "monitor"}
+			c.ReplMon = u.Idx%4 == 1 // the repl_mon writer loop runs beside the others in a quarter of the scenarios
 		}, ResetupTool: sp.Family == "soak"}
 	if sp.Family == "loops" {
 		inner := opts.Cfg
